@@ -200,10 +200,13 @@ def h_flow(t, part):
             w.c.on('connect', mk('connect', ns), namespace=ns)
             w.c.on('disconnect', mk('disconnect', ns), namespace=ns)
     answered = {'n': 0, 'script': []}
+    serving = {'on': True}
 
     def serve_connects():
         """the server answers the CONNECT packets it has received so far (accept / refuse, from the tape)"""
         did = False
+        if not serving['on']:
+            return did
         for p in w.take():
             if isinstance(p, tuple) or p.packet_type != packet.CONNECT:
                 continue
@@ -231,7 +234,7 @@ def h_flow(t, part):
 
             async def server():
                 while not stop['v']:
-                    await miniloop._Suspend('cond', lambda: stop['v'] or len(w.eio.out) > w.pos, None, 'server idle')
+                    await miniloop._Suspend('cond', lambda: stop['v'] or (serving['on'] and len(w.eio.out) > w.pos), None, 'server idle')
                     for fr in serve_connects():
                         await w.eio.recv(fr)
             miniloop.create_task(server(), 'server')
@@ -247,16 +250,23 @@ def h_flow(t, part):
                     w.eio.recv(fr)
             waithook.HOOK[0] = hook
             run = w.call
+        early = part.get('early_loss', False)
+        serving['on'] = not early
         run(w.c.connect('http://h', namespaces=NSS, auth={'k': 1}, headers={'x': 'y'}, transports=['polling'],
-                        socketio_path='sp', wait=True, wait_timeout=1))
+                        socketio_path='sp', wait=not early, wait_timeout=1))
         if not w.c.connected:
             return Fail('reconnect:flow:initial-connect-failed', repr(answered))
+        if early:
+            # the transport is lost before the server has answered any CONNECT packet
+            w.take()
+            answered['n'] = 2
         first_attempts = len(w.eio.connects)
         del ev[:]
         # ---- the connection ends, by one of four causes -------------------------------------------------------
         cause = part['cause']
         if cause == 'transport-error':
             run(w.eio.lose())
+            serving['on'] = True
         elif cause == 'client-disconnect':
             run(w.c.disconnect())
         elif cause == 'server-disconnect-namespaces':
@@ -308,7 +318,7 @@ def h_flow(t, part):
                 k += 1 if what == 'accept' else 0
                 if what == 'accept':
                     want[ns] = 'sid%d' % k
-            if sids != want:
+            if sids != want and not early:
                 return Fail('reconnect:stale-sid-after-reconnect', 'client has %r, server issued %r last' % (sids, want))
             # a further loss right after the success starts exactly one new effort
             if not asyncio_:
@@ -317,7 +327,7 @@ def h_flow(t, part):
                     return Fail('reconnect:second-loss-tasks=%d' % len(w.eio.bg), '')
         else:
             if len(attempts) != 2:
-                return Fail('reconnect:gave-up-early', repr(attempts))
+                return Fail('reconnect:gave-up-early', 'attempts that reached the transport: %r' % (attempts,))
         return None
     finally:
         mod.random = saved_random
@@ -347,12 +357,13 @@ def flow_parts(tier):
         for sh in (1, 2):
             if not a:
                 out.append({'async': a, 'cause': 'transport-error', 'reconnection': True, 'shutdown_at': sh})
+        out.append({'async': a, 'cause': 'transport-error', 'reconnection': True, 'early_loss': True})
     return out
 
 
 CHECKS = [
-    dict(name='backoff-kernel', fn=h_kernel, parts=kernel_parts, budget={'quick': 80, 'thorough': 600}, per_path_s=30),
-    dict(name='decision-and-flow', fn=h_flow, parts=flow_parts, budget={'quick': 80, 'thorough': 300}, per_path_s=30),
+    dict(name='backoff-kernel', fn=h_kernel, parts=kernel_parts, budget={'quick': 180, 'thorough': 600}, per_path_s=30),
+    dict(name='decision-and-flow', fn=h_flow, parts=flow_parts, budget={'quick': 180, 'thorough': 300}, per_path_s=30),
 ]
 
 META = dict(
